@@ -3,6 +3,7 @@ import CodeLimit.Model.Regex
 import CodeLimit.Model.Pattern
 import CodeLimit.Model.Scopes
 import CodeLimit.Model.Check
+import CodeLimit.Model.RenderOps
 /-!
 Line-protocol driver for the executable models (`lean_exe cldriver`).
 One request per line, one reply per line, words separated by single blanks.
@@ -172,7 +173,10 @@ def handle (langs : Array Language) (line : String) : String :=
     | "nocl" => run do
         let v ← parseStr
         return (if isNoclText v then "ok T" else "ok F")
-    | _ => "bad-op"
+    | _ =>
+      -- operations contributed by the other models (each handler returns `none` for foreign commands)
+      let hs : List (String → List String → Option String) := [CL.RenderOps.handleRender]
+      (hs.findSome? (fun h => h cmd rest)).getD "bad-op"
 
 partial def loop (h : IO.FS.Stream) (out : IO.FS.Stream) (langs : Array Language) : IO Unit := do
   let line ← h.getLine
